@@ -112,6 +112,10 @@ def check_relative(run):
             a = float("-inf")
         elif i % 4 == 3:
             b = float("inf")
+        if i == 2:
+            # an interval that holds too few points once it is anchored: the
+            # fit must end unsuccessful, nothing of the first pass is shown
+            a, b = -1e-7, 1e-7
         k = run.rng.choice([1.0, 1.0, 0.5])
         segment = run.rng.choice([0, 0, 1])
         cfg = {"range_x": [a, b], "gcf_k": k, "segment": segment,
@@ -136,6 +140,13 @@ def check_relative(run):
                 cpl = calls[-1]["cp_out"] / k
                 m = numpy_mask(seg, x, float(a + cpl), float(b + cpl))
                 legit = int(m.sum()) <= nvar + 1
+            stale = [kk for kk in ("params_fitted", "xmin", "xmax")
+                     if kk in idnt.fit_properties]
+            if legit and stale:
+                run.failing(SITE, key + "|stale", "a pass had too few points "
+                            f"but the curve still reports {stale}",
+                            payload={"kind": "relative", "cfg": cfg},
+                            theorem="C05_relative_anchor")
             if not legit:
                 run.failing(SITE, key, f"{len(calls)} optimisations instead "
                             "of 1 + 3 passes (and no pass had too few "
